@@ -52,6 +52,8 @@ type Options struct {
 	Trace          bool
 	MaxViolations  int
 	Tier           int // 0 quick, 1 thorough (read by harnesses through vfTier)
+	MaxCallDepth   int
+	MaxWallS       float64 // wall-clock cap per harness; hitting it is reported as a cap, never as success
 	MaxSamples     int // ok-paths whose model is kept for native cross-validation
 	SampleEvery    int
 }
@@ -65,6 +67,8 @@ func DefaultOptions() Options {
 		Workers:        runtime.NumCPU(),
 		QueryTimeoutMs: 20000,
 		MaxViolations:  5,
+		MaxWallS:       900,
+		MaxCallDepth:   3000,
 		MaxSamples:     12,
 		SampleEvery:    1,
 	}
@@ -576,7 +580,8 @@ type HarnessResult struct {
 	AssertsUnk   int
 	Unknowns     int
 	CutMsgs      map[string]int
-	ProblemMsgs  map[string]int // unsupported / engine messages
+	ProblemMsgs  map[string]int // unsupported / engine messages (first line)
+	ProblemDetail []string
 	Samples      []string
 	PathSamples  []*Sample
 	Leaks        int
@@ -624,6 +629,21 @@ func (pl *Pool) Run(h *ssa.Function, opts Options) *HarnessResult {
 	}
 	before := make([]SolverStats, nw)
 	var wg sync.WaitGroup
+	doneCh := make(chan struct{})
+	if os.Getenv("GOSYM_PROGRESS") != "" {
+		go func() {
+			for {
+				select {
+				case <-doneCh:
+					return
+				case <-time.After(5 * time.Second):
+					mu.Lock()
+					fmt.Fprintf(os.Stderr, "  .. %s: paths=%d queue=%d inflight=%d outcomes=%v viol=%d\n", h.Name(), hr.Paths, len(queue), inflight, hr.Outcomes, len(hr.Violations))
+					mu.Unlock()
+				}
+			}
+		}()
+	}
 	for w := 0; w < nw; w++ {
 		wg.Add(1)
 		in := pl.interps[w]
@@ -649,7 +669,13 @@ func (pl *Pool) Run(h *ssa.Function, opts Options) *HarnessResult {
 				inflight++
 				mu.Unlock()
 
+				t0 := time.Now()
+				q0, s0 := in.solver.stats.Queries, in.solver.stats.Seconds
 				res := in.runPath(h, prefix)
+				if os.Getenv("GOSYM_PATHLOG") != "" {
+					fmt.Fprintf(os.Stderr, "  path prefix=%d dec=%d new=%d steps=%d wall=%.3fs queries=%d solver=%.3fs outcome=%s %s\n", len(prefix), len(res.Decisions), res.NewDec, res.Steps,
+						time.Since(t0).Seconds(), in.solver.stats.Queries-q0, in.solver.stats.Seconds-s0, res.Outcome, firstLineOf(res.Msg))
+				}
 
 				mu.Lock()
 				inflight--
@@ -675,10 +701,14 @@ func (pl *Pool) Run(h *ssa.Function, opts Options) *HarnessResult {
 					if len(m) > 1500 {
 						m = m[:1500]
 					}
-					hr.ProblemMsgs[res.Outcome+": "+m]++
+					key := res.Outcome + ": " + firstLineOf(m)
+					if hr.ProblemMsgs[key] == 0 {
+						hr.ProblemDetail = append(hr.ProblemDetail, res.Outcome+": "+m)
+					}
+					hr.ProblemMsgs[key]++
 				}
 				for _, v := range res.Violations {
-					if len(hr.Violations) < 50 {
+					if len(hr.Violations) < 400 {
 						hr.Violations = append(hr.Violations, v)
 					}
 				}
@@ -690,7 +720,7 @@ func (pl *Pool) Run(h *ssa.Function, opts Options) *HarnessResult {
 					hr.PathSamples = append(hr.PathSamples, res.Sample)
 				}
 				queue = append(queue, in.path.siblings...)
-				if hr.Paths >= opts.MaxPaths {
+				if hr.Paths >= opts.MaxPaths || (opts.MaxWallS > 0 && time.Since(start).Seconds() > opts.MaxWallS) {
 					hr.PathCapHit = len(queue) > 0 || inflight > 0
 					stop = true
 				}
@@ -703,6 +733,7 @@ func (pl *Pool) Run(h *ssa.Function, opts Options) *HarnessResult {
 		}(in)
 	}
 	wg.Wait()
+	close(doneCh)
 	for w := 0; w < nw; w++ {
 		in := pl.interps[w]
 		a, b := in.solver.stats, before[w]
@@ -742,4 +773,14 @@ func debugf(format string, args ...interface{}) {
 	if os.Getenv("GOSYM_DEBUG") != "" {
 		fmt.Fprintf(os.Stderr, format+"\n", args...)
 	}
+}
+
+func firstLineOf(s string) string {
+	if k := strings.IndexByte(s, '\n'); k >= 0 {
+		s = s[:k]
+	}
+	if len(s) > 300 {
+		s = s[:300]
+	}
+	return s
 }
